@@ -24,7 +24,9 @@ EXTENDS Records, Sequences
 CONSTANT XBug      \* "none", or a named deviation of the state machine (model self-tests)
 
 NoStats == <<>>
-EmptyBlock(i) == [bpi |-> i, qrs |-> <<>>, mms |-> <<>>, aecs |-> <<>>, stats |-> NoStats]
+EmptyBlock(i) == [bpi |-> i, qrs |-> <<>>, mms |-> <<>>, aecs |-> <<>>, stats |-> NoStats, et |-> <<>>]
+    \* et: earliest-time of the block in ticks (C17): set by the first timed record offered while the
+    \* block holds no query/response or malformed message, lowered by any earlier timed record
     \* aecs: sequence of [key, n] in first-seen order (a bag; order is not part of the meaning)
 
 ExInit(pre, bps) == [pre |-> pre, bps |-> bps, active |-> 0, blk |-> EmptyBlock(0), bw |-> 0, hdr |-> 0,
@@ -52,9 +54,15 @@ WithStats(b, st) == IF st = NoStats THEN b ELSE [b EXCEPT !.stats = st]
 FlushIfFull(ex1) == IF Full(ex1.blk, BP(ex1)) THEN Flush(ex1) ELSE [s |-> ex1, wrote |-> FALSE]
 
 (* buffer_qr(rec, stats)  -- st is NoStats or <<stats>> *)
+Earliest(b, rec, tps) ==
+    IF "ts" \in DOMAIN rec /\ ((Len(b.qrs) = 0 /\ Len(b.mms) = 0) \/ Lt(TsTicks(rec.ts, tps), b.et))
+    THEN (IF XBug = "earliest_first_only" /\ ~(Len(b.qrs) = 0 /\ Len(b.mms) = 0) THEN b.et ELSE TsTicks(rec.ts, tps))
+    ELSE b.et
+
 StepQR(ex, rec, st) ==
     LET h   == Hints(ex)
-        b1  == IF StorableQR(rec, h) THEN [ex.blk EXCEPT !.qrs = Append(@, FilterQR(rec, h, BP(ex).tps))] ELSE ex.blk
+        b0  == [ex.blk EXCEPT !.et = Earliest(ex.blk, rec, BP(ex).tps)]
+        b1  == IF StorableQR(rec, h) THEN [b0 EXCEPT !.qrs = Append(@, FilterQR(rec, h, BP(ex).tps))] ELSE b0
     IN FlushIfFull([ex EXCEPT !.blk = WithStats(b1, st)])
 
 AddAEC(aecs, key) ==
@@ -70,7 +78,8 @@ StepAEC(ex, rec, st) ==
 (* buffer_mm: ignored altogether when the malformed-message hint is off *)
 StepMM(ex, rec, st) ==
     IF ~MMEnabled(Hints(ex)) THEN [s |-> ex, wrote |-> FALSE]
-    ELSE LET b1 == IF DOMAIN rec # {} THEN [ex.blk EXCEPT !.mms = Append(@, FilterMM(rec, BP(ex).tps))] ELSE ex.blk
+    ELSE LET b0 == [ex.blk EXCEPT !.et = Earliest(ex.blk, rec, BP(ex).tps)]
+             b1 == IF DOMAIN rec # {} THEN [b0 EXCEPT !.mms = Append(@, FilterMM(rec, BP(ex).tps))] ELSE b0
          IN FlushIfFull([ex EXCEPT !.blk = WithStats(b1, st)])
 
 StepWB(ex) == Flush(ex)
@@ -116,6 +125,14 @@ C13_SelfContained(ex) ==
           /\ \A i \in 1..Len(ex.closed[o].blocks) : ex.closed[o].blocks[i].bpi < ex.closed[o].hdr
     /\ \A i \in 1..Len(ex.cur) : ex.cur[i].bpi < ex.hdr
     /\ ex.bw = Len(ex.cur)
+
+(* C17: the block's earliest-time is not later than any stored instant *)
+EarliestOK(b) == /\ \A i \in 1..Len(b.qrs) : "ts" \in DOMAIN b.qrs[i] => Le(b.et, b.qrs[i].ts)
+                 /\ \A i \in 1..Len(b.mms) : "ts" \in DOMAIN b.mms[i] => Le(b.et, b.mms[i].ts)
+C17_Earliest(ex) ==
+    /\ EarliestOK(ex.blk)
+    /\ \A i \in 1..Len(ex.cur) : EarliestOK(ex.cur[i])
+    /\ \A o \in 1..Len(ex.closed) : \A i \in 1..Len(ex.closed[o].blocks) : EarliestOK(ex.closed[o].blocks[i])
 
 RECURSIVE FlatQR(_, _), FlatMM(_, _)
 FlatQR(blocks, i) == IF i > Len(blocks) THEN <<>> ELSE blocks[i].qrs \o FlatQR(blocks, i + 1)
